@@ -193,3 +193,15 @@ class IrfKernelsAllSizes(Contract):
 
         spec, _ = on_index_spec()
         return records(spec, self.name, prefix="on_index.") + records(all_indices_spec(), self.name, prefix="all_indices.") + crosscheck(spec, a1) + crosscheck(all_indices_spec(), a2)
+
+
+def _with_selftest(fn):
+    def wrapped(self, tier):
+        from contracts.unbounded import engine_selftest
+
+        return fn(self, tier) + engine_selftest()
+
+    return wrapped
+
+
+IrfKernelsAllSizes.static_obligations = _with_selftest(IrfKernelsAllSizes.static_obligations)
